@@ -110,7 +110,18 @@ func c04NewEnv(c *core.Ctx, rule string) *c04Env {
 		return nil
 	}
 	e.fns = c.RepoFunctions()
+	c04Getters, c04Setters = map[*ssa.Function]*ssa.FieldAddr{}, map[*ssa.Function]*ssa.FieldAddr{}
 	for _, f := range e.fns {
+		if fa := c04GetterOf(f); fa != nil {
+			c04Getters[f] = fa
+		} else if fa := c04SetterOf(f); fa != nil {
+			c04Setters[f] = fa
+		}
+	}
+	for _, f := range e.fns {
+		if c04Getters[f] != nil || c04Setters[f] != nil {
+			continue // accessors are the field accesses they wrap, not methods with behaviour of their own
+		}
 		root := f
 		for root.Parent() != nil {
 			root = root.Parent()
@@ -127,17 +138,203 @@ func c04NewEnv(c *core.Ctx, rule string) *c04Env {
 
 // ---------------------------------------------------------------- small value helpers
 
-// c04FieldLoad: v is a load of a struct field; returns the field and the FieldAddr.
+// Accessor methods: a method whose whole body is `return recv.<path>.F` (getter) or `recv.<path>.F = param`
+// (setter). A call of one is treated as the load / store of F it wraps. Filled by c04NewEnv.
+var (
+	c04Getters map[*ssa.Function]*ssa.FieldAddr
+	c04Setters map[*ssa.Function]*ssa.FieldAddr
+)
+
+// c04RootedAtRecv: the address is a chain of field selections starting at the function's receiver.
+func c04RootedAtRecv(f *ssa.Function, a ssa.Value) bool {
+	for i := 0; i < 6; i++ {
+		switch x := a.(type) {
+		case *ssa.FieldAddr:
+			a = x.X
+		case *ssa.Parameter:
+			return len(f.Params) > 0 && x == f.Params[0]
+		default:
+			return false
+		}
+	}
+	return false
+}
+
+func c04OnlyTrivial(f *ssa.Function, allow func(in ssa.Instruction) bool) bool {
+	if f.Signature.Recv() == nil || f.Parent() != nil || len(f.Blocks) != 1 || len(f.AnonFuncs) > 0 {
+		return false
+	}
+	for _, in := range f.Blocks[0].Instrs {
+		switch in.(type) {
+		case *ssa.FieldAddr, *ssa.DebugRef, *ssa.Return:
+		default:
+			if !allow(in) {
+				return false
+			}
+		}
+	}
+	return true
+}
+
+func c04GetterOf(f *ssa.Function) *ssa.FieldAddr {
+	if len(f.Params) != 1 || f.Signature.Results().Len() != 1 {
+		return nil
+	}
+	var load *ssa.UnOp
+	if !c04OnlyTrivial(f, func(in ssa.Instruction) bool {
+		u, ok := in.(*ssa.UnOp)
+		if ok && u.Op == token.MUL && load == nil {
+			load = u
+			return true
+		}
+		return false
+	}) || load == nil {
+		return nil
+	}
+	fa, ok := load.X.(*ssa.FieldAddr)
+	if !ok || !c04RootedAtRecv(f, fa) {
+		return nil
+	}
+	rt, ok := f.Blocks[0].Instrs[len(f.Blocks[0].Instrs)-1].(*ssa.Return)
+	if !ok || len(rt.Results) != 1 || rt.Results[0] != ssa.Value(load) {
+		return nil
+	}
+	return fa
+}
+
+func c04SetterOf(f *ssa.Function) *ssa.FieldAddr {
+	if len(f.Params) != 2 || f.Signature.Results().Len() != 0 {
+		return nil
+	}
+	var st *ssa.Store
+	if !c04OnlyTrivial(f, func(in ssa.Instruction) bool {
+		x, ok := in.(*ssa.Store)
+		if ok && st == nil {
+			st = x
+			return true
+		}
+		return false
+	}) || st == nil {
+		return nil
+	}
+	fa, ok := st.Addr.(*ssa.FieldAddr)
+	if !ok || !c04RootedAtRecv(f, fa) || st.Val != ssa.Value(f.Params[1]) {
+		return nil
+	}
+	return fa
+}
+
+// c04UnwrapFn follows synthetic wrappers (bound method values, promoted-method wrappers) to the declared method.
+func c04UnwrapFn(f *ssa.Function) *ssa.Function {
+	for i := 0; i < 3 && f != nil && f.Synthetic != "" && f.Blocks != nil; i++ {
+		if !strings.HasPrefix(f.Synthetic, "bound method wrapper") && !strings.HasPrefix(f.Synthetic, "wrapper for") {
+			break
+		}
+		var inner *ssa.Function
+		n := 0
+		for _, b := range f.Blocks {
+			for _, in := range b.Instrs {
+				if ci, ok := in.(ssa.CallInstruction); ok {
+					n++
+					inner = ci.Common().StaticCallee()
+				}
+			}
+		}
+		if n != 1 || inner == nil {
+			break
+		}
+		f = inner
+	}
+	return f
+}
+
+// c04ViewOf: the concrete value behind an interface view (MakeInterface / ChangeInterface of it), nil if unknown.
+func c04ViewOf(v ssa.Value) ssa.Value {
+	for i := 0; i < 4; i++ {
+		switch x := v.(type) {
+		case *ssa.ChangeInterface:
+			v = x.X
+		case *ssa.MakeInterface:
+			return x.X
+		default:
+			return nil
+		}
+	}
+	return nil
+}
+
+// c04Callee resolves the function a call enters: the static callee; the method behind a bound method value
+// (`f := x.m; f()`); the method of the concrete value behind a local interface view (`var v I = x; v.m()`).
+func c04Callee(ci ssa.CallInstruction) *ssa.Function {
+	cc := ci.Common()
+	if cc.IsInvoke() {
+		x := c04ViewOf(cc.Value)
+		if x == nil || ci.Parent() == nil {
+			return nil
+		}
+		prog := ci.Parent().Prog
+		sel := prog.MethodSets.MethodSet(x.Type()).Lookup(cc.Method.Pkg(), cc.Method.Name())
+		if sel == nil {
+			return nil
+		}
+		return c04UnwrapFn(prog.MethodValue(sel))
+	}
+	return c04UnwrapFn(cc.StaticCallee())
+}
+
+// c04CallArgs returns the arguments of the call aligned with the parameters of c04Callee(ci) (receiver first).
+func c04CallArgs(ci ssa.CallInstruction) []ssa.Value {
+	cc := ci.Common()
+	if cc.IsInvoke() {
+		if x := c04ViewOf(cc.Value); x != nil {
+			return append([]ssa.Value{x}, cc.Args...)
+		}
+		return cc.Args
+	}
+	if f := cc.StaticCallee(); f != nil && strings.HasPrefix(f.Synthetic, "bound method wrapper") {
+		if mc, ok := cc.Value.(*ssa.MakeClosure); ok && len(mc.Bindings) == 1 {
+			return append([]ssa.Value{mc.Bindings[0]}, cc.Args...)
+		}
+	}
+	return cc.Args
+}
+
+// c04FieldLoad: v is a load of a struct field - directly, or through a getter accessor; returns the field and
+// the FieldAddr (for a getter: the one inside the accessor).
 func c04FieldLoad(v ssa.Value) (*types.Var, *ssa.FieldAddr) {
-	u, ok := v.(*ssa.UnOp)
-	if !ok || u.Op != token.MUL {
-		return nil, nil
+	switch x := v.(type) {
+	case *ssa.UnOp:
+		if x.Op != token.MUL {
+			return nil, nil
+		}
+		fa, ok := x.X.(*ssa.FieldAddr)
+		if !ok {
+			return nil, nil
+		}
+		return core.FieldOfAddr(fa), fa
+	case *ssa.Call:
+		if cf := c04Callee(x); cf != nil {
+			if fa := c04Getters[cf]; fa != nil {
+				return core.FieldOfAddr(fa), fa
+			}
+		}
 	}
-	fa, ok := u.X.(*ssa.FieldAddr)
-	if !ok {
-		return nil, nil
+	return nil, nil
+}
+
+// c04LoadBase: the object whose field the load reads (the FieldAddr base, or the getter call's receiver).
+func c04LoadBase(v ssa.Value) ssa.Value {
+	switch x := v.(type) {
+	case *ssa.UnOp:
+		if fa, ok := x.X.(*ssa.FieldAddr); ok {
+			return fa.X
+		}
+	case *ssa.Call:
+		if args := c04CallArgs(x); len(args) > 0 {
+			return args[0]
+		}
 	}
-	return core.FieldOfAddr(fa), fa
+	return nil
 }
 
 // c04IsLoadOf: v is a load of the given field.
@@ -146,17 +343,55 @@ func c04IsLoadOf(v ssa.Value, fld *types.Var) bool {
 	return f != nil && f == fld
 }
 
+// c04StoreEvent: in stores a value into a struct field - directly, or through a setter accessor.
+func c04StoreEvent(in ssa.Instruction) (*types.Var, ssa.Value, bool) {
+	switch x := in.(type) {
+	case *ssa.Store:
+		if fa, ok := x.Addr.(*ssa.FieldAddr); ok {
+			return core.FieldOfAddr(fa), x.Val, true
+		}
+	case ssa.CallInstruction:
+		if cf := c04Callee(x); cf != nil {
+			if fa := c04Setters[cf]; fa != nil {
+				if args := c04CallArgs(x); len(args) == 2 {
+					return core.FieldOfAddr(fa), args[1], true
+				}
+			}
+		}
+	}
+	return nil, nil, false
+}
+
 // c04StoreTo: in is a store to the given field; returns the stored value.
 func c04StoreTo(in ssa.Instruction, fld *types.Var) (ssa.Value, bool) {
-	st, ok := in.(*ssa.Store)
-	if !ok {
+	f, v, ok := c04StoreEvent(in)
+	if !ok || f != fld {
 		return nil, false
 	}
-	fa, ok := st.Addr.(*ssa.FieldAddr)
-	if !ok || core.FieldOfAddr(fa) != fld {
-		return nil, false
+	return v, true
+}
+
+// c04SameVal: core.SameValue, extended to loads of the same field of the same object through accessors.
+func c04SameVal(a, b ssa.Value) bool {
+	if a == b || core.SameValue(a, b) {
+		return true
 	}
-	return st.Val, true
+	fa, _ := c04FieldLoad(a)
+	fb, _ := c04FieldLoad(b)
+	if fa == nil || fa != fb {
+		return false
+	}
+	ba, bb := c04LoadBase(a), c04LoadBase(b)
+	if ba == nil || bb == nil {
+		return false
+	}
+	if ba == bb || core.SameValue(ba, bb) {
+		return true
+	}
+	// both bases are themselves field selections of the same object (embedded struct path)
+	xa, oka := ba.(*ssa.FieldAddr)
+	xb, okb := bb.(*ssa.FieldAddr)
+	return oka && okb && xa.Field == xb.Field && (xa.X == xb.X || core.SameValue(xa.X, xb.X))
 }
 
 func c04ErrorType(t types.Type) bool {
@@ -186,7 +421,7 @@ func c04AbortReturn(rt *ssa.Return) bool {
 }
 
 func c04CalleeKey(ci ssa.CallInstruction) string {
-	if f := ci.Common().StaticCallee(); f != nil {
+	if f := c04Callee(ci); f != nil {
 		return core.FuncKey(f)
 	}
 	if o := core.CalleeObj(ci); o != nil {
@@ -367,7 +602,7 @@ func (w *c04Walker) same(a, b ssa.Value) bool { return w.sameD(a, b, 0) }
 
 func (w *c04Walker) sameD(a, b ssa.Value, d int) bool {
 	a, b = w.resolve(a), w.resolve(b)
-	if a == b || core.SameValue(a, b) {
+	if a == b || c04SameVal(a, b) {
 		return true
 	}
 	if d > 8 || a == nil || b == nil {
@@ -389,12 +624,12 @@ func (w *c04Walker) sameD(a, b ssa.Value, d int) bool {
 
 // canDescend: a c04Descend answer for this call would be followed.
 func (w *c04Walker) canDescend(ci ssa.CallInstruction) bool {
-	cf := ci.Common().StaticCallee()
+	cf := c04Callee(ci)
 	if cf == nil || cf.Blocks == nil || len(w.stack) >= w.maxDepth || !core.InRepo(core.FuncPkg(cf)) || cf == ci.Parent() || cf == w.root {
 		return false
 	}
 	for _, s := range w.stack {
-		if s.Common().StaticCallee() == cf {
+		if c04Callee(s) == cf {
 			return false
 		}
 	}
@@ -429,7 +664,7 @@ type c04RetState struct {
 	st, ec, ei int
 }
 
-func (w *c04Walker) frame(b *ssa.BasicBlock, idx, st int, onRet func(st int, rt *ssa.Return)) {
+func (w *c04Walker) frame(b *ssa.BasicBlock, idx, st int, onRet func(st, errClass, errIdx int)) {
 	type key struct {
 		b  *ssa.BasicBlock
 		i  int
@@ -488,7 +723,17 @@ func (w *c04Walker) frame(b *ssa.BasicBlock, idx, st int, onRet func(st int, rt 
 			}
 			in := b.Instrs[i]
 			if rt, isRet := in.(*ssa.Return); isRet && onRet != nil {
-				onRet(st, rt)
+				cl, ix := c04ErrClass(rt)
+				if cl == 0 && ix >= 0 && lc != nil && ec != 0 && lc.Value() != nil {
+					// `return helper(...)`: the error handed on is the one the seen-through helper returned
+					v := rt.Results[ix]
+					if v == ssa.Value(lc.Value()) {
+						cl = ec
+					} else if ex, ok := v.(*ssa.Extract); ok && ex.Tuple == ssa.Value(lc.Value()) && ex.Index == ei {
+						cl = ec
+					}
+				}
+				onRet(st, cl, ix)
 				return
 			}
 			ns, act := w.step(w, in, st)
@@ -507,21 +752,20 @@ func (w *c04Walker) frame(b *ssa.BasicBlock, idx, st int, onRet func(st int, rt 
 				if !ok || !w.canDescend(ci) {
 					continue
 				}
-				cf := ci.Common().StaticCallee()
+				cf := c04Callee(ci)
 				w.stack = append(w.stack, ci)
 				saved := map[*ssa.Parameter]ssa.Value{}
 				for pi, p := range cf.Params {
-					if pi < len(ci.Common().Args) {
+					if pi < len(c04CallArgs(ci)) {
 						if old, ok := w.bind[p]; ok {
 							saved[p] = old
 						}
-						w.bind[p] = w.resolve(ci.Common().Args[pi])
+						w.bind[p] = w.resolve(c04CallArgs(ci)[pi])
 					}
 				}
 				var rets []c04RetState
 				got := map[c04RetState]bool{}
-				w.frame(cf.Blocks[0], 0, st, func(s int, rt *ssa.Return) {
-					c, ix := c04ErrClass(rt)
+				w.frame(cf.Blocks[0], 0, st, func(s, c, ix int) {
 					rs := c04RetState{s, c, ix}
 					if !got[rs] {
 						got[rs] = true
@@ -606,7 +850,7 @@ func (e *c04Env) reachesInstr(f *ssa.Function, pred func(in ssa.Instruction) boo
 				res = true
 			}
 			if ci, ok := in.(ssa.CallInstruction); ok && !res {
-				if cf := ci.Common().StaticCallee(); cf != nil && cf != f && core.InRepo(core.FuncPkg(cf)) && e.reachesInstr(cf, pred, memo, depth+1) {
+				if cf := c04Callee(ci); cf != nil && cf != f && core.InRepo(core.FuncPkg(cf)) && e.reachesInstr(cf, pred, memo, depth+1) {
 					res = true
 				}
 			}
@@ -629,7 +873,7 @@ func (e *c04Env) helperPred(pred func(in ssa.Instruction) bool) func(in ssa.Inst
 		if !ok {
 			return false
 		}
-		cf := ci.Common().StaticCallee()
+		cf := c04Callee(ci)
 		if cf == nil || cf == e.remove || cf == e.addChild || cf.Blocks == nil {
 			return false
 		}
@@ -851,7 +1095,7 @@ func (e *c04Env) queriesFn(f *ssa.Function) bool {
 			res = true
 			break
 		}
-		if cf := ci.Common().StaticCallee(); cf != nil && cf.Blocks != nil && core.InRepo(core.FuncPkg(cf)) && e.queriesFn(cf) {
+		if cf := c04Callee(ci); cf != nil && cf.Blocks != nil && core.InRepo(core.FuncPkg(cf)) && e.queriesFn(cf) {
 			res = true
 			break
 		}
@@ -909,7 +1153,7 @@ type c04QRoot struct {
 
 // queryRoots resolves the node argument(s) of the query behind call ci (through helper methods).
 func (e *c04Env) queryRoots(ci ssa.CallInstruction, depth int) []c04QRoot {
-	cf := ci.Common().StaticCallee()
+	cf := c04Callee(ci)
 	if cf == nil {
 		return nil
 	}
@@ -942,8 +1186,8 @@ func (e *c04Env) queryRoots(ci ssa.CallInstruction, depth int) []c04QRoot {
 							continue
 						}
 						for i, fp := range cf.Params {
-							if fp == p && i < len(ci.Common().Args) {
-								r2.cmpArgs = append(r2.cmpArgs, ci.Common().Args[i])
+							if fp == p && i < len(c04CallArgs(ci)) {
+								r2.cmpArgs = append(r2.cmpArgs, c04CallArgs(ci)[i])
 							}
 						}
 					}
@@ -952,16 +1196,16 @@ func (e *c04Env) queryRoots(ci ssa.CallInstruction, depth int) []c04QRoot {
 			for _, a := range r.cmpArgs {
 				if p, ok := a.(*ssa.Parameter); ok {
 					for i, fp := range cf.Params {
-						if fp == p && i < len(ci.Common().Args) {
-							r2.cmpArgs = append(r2.cmpArgs, ci.Common().Args[i])
+						if fp == p && i < len(c04CallArgs(ci)) {
+							r2.cmpArgs = append(r2.cmpArgs, c04CallArgs(ci)[i])
 						}
 					}
 				}
 			}
 			if p, ok := r.val.(*ssa.Parameter); ok {
 				for i, fp := range cf.Params {
-					if fp == p && i < len(ci.Common().Args) {
-						r2.val = ci.Common().Args[i]
+					if fp == p && i < len(c04CallArgs(ci)) {
+						r2.val = c04CallArgs(ci)[i]
 						if f, fa := c04FieldLoad(r2.val); f != nil && !types.Identical(core.FieldOwner(fa), e.node) {
 							r2.fld = f
 						}
@@ -982,7 +1226,7 @@ func (e *c04Env) isQueryResultCall(ci ssa.CallInstruction) bool {
 	if c04IsXPathEval(ci) {
 		return true
 	}
-	cf := ci.Common().StaticCallee()
+	cf := c04Callee(ci)
 	if cf == nil || cf.Blocks == nil || !core.InRepo(core.FuncPkg(cf)) {
 		return false
 	}
@@ -1139,17 +1383,43 @@ func (e *c04Env) releaseMethod(tn *types.TypeName) *ssa.Function {
 
 // nodeFields: the direct *Node-typed fields of a struct type.
 func (e *c04Env) nodeFields(tn *types.TypeName) []*types.Var {
-	st, ok := tn.Type().Underlying().(*types.Struct)
-	if !ok {
+	var out []*types.Var
+	for _, f := range c04AllFields(tn.Type(), 0) {
+		if c04IsPtrTo(f.Type(), e.node) {
+			out = append(out, f)
+		}
+	}
+	return out
+}
+
+// c04AllFields: the fields of a struct type including those promoted from embedded structs.
+func c04AllFields(t types.Type, depth int) []*types.Var {
+	if p, ok := t.Underlying().(*types.Pointer); ok {
+		t = p.Elem()
+	}
+	st, ok := t.Underlying().(*types.Struct)
+	if !ok || depth > 3 {
 		return nil
 	}
 	var out []*types.Var
 	for i := 0; i < st.NumFields(); i++ {
-		if c04IsPtrTo(st.Field(i).Type(), e.node) {
-			out = append(out, st.Field(i))
+		f := st.Field(i)
+		out = append(out, f)
+		if f.Embedded() {
+			out = append(out, c04AllFields(f.Type(), depth+1)...)
 		}
 	}
 	return out
+}
+
+// readerField: the field belongs to the reader type (directly or through an embedded struct).
+func (e *c04Env) readerField(tn *types.TypeName, f *types.Var) bool {
+	for _, x := range c04AllFields(tn.Type(), 0) {
+		if x == f {
+			return true
+		}
+	}
+	return false
 }
 
 // readerTypes: every named struct type of the repository (CLI excluded) with a method Read() (*Node, error),
@@ -1205,10 +1475,8 @@ func (e *c04Env) holderOf(tn *types.TypeName, exclude *types.Var) (h *types.Var,
 				}
 				for _, b2 := range m.Blocks {
 					for _, in2 := range b2.Instrs {
-						if st, ok := in2.(*ssa.Store); ok && st.Val == v {
-							if fa, ok := st.Addr.(*ssa.FieldAddr); ok && flds[core.FieldOfAddr(fa)] {
-								cands[core.FieldOfAddr(fa)] = true
-							}
+						if f, sv, ok := c04StoreEvent(in2); ok && sv == v && flds[f] {
+							cands[f] = true
 						}
 					}
 				}
@@ -1241,15 +1509,14 @@ func (e *c04Env) cursorOf(tn *types.TypeName) (cur *types.Var, ambiguous bool) {
 			for _, in := range b.Instrs {
 				switch x := in.(type) {
 				case ssa.CallInstruction:
-					if x.Common().StaticCallee() == e.addChild {
+					if c04Callee(x) == e.addChild {
 						if f, _ := c04FieldLoad(x.Common().Args[0]); f != nil && flds[f] {
 							parents[f] = true
 						}
 					}
-				case *ssa.Store:
-					if fa, ok := x.Addr.(*ssa.FieldAddr); ok && flds[core.FieldOfAddr(fa)] {
-						stored[core.FieldOfAddr(fa)] = true
-					}
+				}
+				if f, _, ok := c04StoreEvent(in); ok && flds[f] {
+					stored[f] = true
 				}
 			}
 		}
@@ -1327,7 +1594,7 @@ func (e *c04Env) resolveReaders(rule string) bool {
 func (e *c04Env) isCreation(v ssa.Value) bool {
 	switch x := v.(type) {
 	case *ssa.Call:
-		cf := x.Call.StaticCallee()
+		cf := c04Callee(x)
 		if cf == nil || e.nodeResult(cf.Signature) < 0 {
 			return false
 		}
@@ -1371,7 +1638,7 @@ func (e *c04Env) isMethodOf(r *c04Reader, f *ssa.Function) bool {
 // checkCall: the call runs the candidate check on every path (a function containing the marking decision, or
 // a method of the reader that must-calls one).
 func (e *c04Env) checkCall(r *c04Reader, ci ssa.CallInstruction, depth int) bool {
-	cf := ci.Common().StaticCallee()
+	cf := c04Callee(ci)
 	if cf == nil || !e.isMethodOf(r, cf) {
 		return false
 	}
@@ -1423,7 +1690,7 @@ func (e *c04Env) advanceHelper(r *c04Reader, f *ssa.Function, depth int) bool {
 				return true
 			}
 			if ci, ok := in.(ssa.CallInstruction); ok {
-				if cf := ci.Common().StaticCallee(); cf != f && e.advanceHelper(r, cf, depth+1) {
+				if cf := c04Callee(ci); cf != f && e.advanceHelper(r, cf, depth+1) {
 					return true
 				}
 			}
@@ -1438,7 +1705,7 @@ func (e *c04Env) advanceSite(r *c04Reader, in ssa.Instruction) bool {
 		return true
 	}
 	if ci, ok := in.(ssa.CallInstruction); ok {
-		return e.advanceHelper(r, ci.Common().StaticCallee(), 0)
+		return e.advanceHelper(r, c04Callee(ci), 0)
 	}
 	return false
 }
@@ -1449,7 +1716,7 @@ func (e *c04Env) attachHelper(r *c04Reader, f *ssa.Function) bool {
 		return false
 	}
 	for _, ci := range core.Calls(f) {
-		if ci.Common().StaticCallee() == e.addChild && c04IsLoadOf(ci.Common().Args[0], r.cur) {
+		if c04Callee(ci) == e.addChild && c04IsLoadOf(ci.Common().Args[0], r.cur) {
 			return true
 		}
 	}
@@ -1462,7 +1729,7 @@ func (e *c04Env) attachSite(r *c04Reader, in ssa.Instruction) bool {
 	if !ok {
 		return false
 	}
-	if ci.Common().StaticCallee() == e.addChild {
+	if c04Callee(ci) == e.addChild {
 		if !c04IsLoadOf(ci.Common().Args[0], r.cur) {
 			return false
 		}
@@ -1477,7 +1744,7 @@ func (e *c04Env) attachSite(r *c04Reader, in ssa.Instruction) bool {
 		}
 		return true
 	}
-	return e.attachHelper(r, ci.Common().StaticCallee())
+	return e.attachHelper(r, c04Callee(ci))
 }
 
 // wrapCall: a call to a function holding a delivering decision (the wrap-up function).
@@ -1486,7 +1753,7 @@ func (e *c04Env) wrapCall(r *c04Reader, in ssa.Instruction) bool {
 	if !ok {
 		return false
 	}
-	cf := ci.Common().StaticCallee()
+	cf := c04Callee(ci)
 	return cf != nil && r.wrapFn[cf]
 }
 
